@@ -8,6 +8,7 @@
    (Model::add/sub/mul), constraints/functions.rs (lin_eq/lin_le/lin_ne 290-365), core/validation.rs
    (the branches reachable from this vocabulary).  Transcribed as written, defects included. *)
 Require Import Selen.Model.Prelude Selen.Model.Dom Selen.Model.Views Selen.Model.PropDefs.
+Require Selen.Generated.Consts.
 Require Import Selen.Model.Props.Basic Selen.Model.Props.LinInt Selen.Model.Api.
 
 (* ---- propagator descriptions: what Propagators::{add,sub,mul,modulo,equals,not_equals,
@@ -62,8 +63,8 @@ Definition push (p : pdesc) (st : lst) : lst := (fst st, snd st ++ [p]).
 Definition set_dom (v : nat) (d : dom) (st : lst) : lst := (supd (fst st) v d, snd st).
 
 (* placeholder bounds of create_result_var (runtime_api:872-874) *)
-Definition aux_lo : Z := -1000.
-Definition aux_hi : Z := 1000.
+Definition aux_lo : Z := Selen.Generated.Consts.aux_placeholder_lo.   (* regenerated from the source *)
+Definition aux_hi : Z := Selen.Generated.Consts.aux_placeholder_hi.
 Definition aux_dom : dom := drange aux_lo aux_hi.
 
 (* SparseSet::remove_all_but *)
